@@ -194,6 +194,7 @@ class Runtime:
         self.externals: Dict[str, Any] = {}       # dotted external name -> abstract value / callable hook
         self.max_steps = 400000
         self.depth = 0
+        self.sym_compare = None                   # default hook for comparisons of symbolic values
         self.overrides: Dict[str, Any] = {}       # FuncInfo.qualname -> callable(args, kw) replacing the body
 
     # ---- evaluation ---------------------------------------------------------------------------------------
@@ -201,6 +202,7 @@ class Runtime:
         ev = Evaluator(env or {}, self.funcs, self.max_steps)
         ev.runtime = self
         ev.module = module
+        ev.sym_compare = self.sym_compare
         return ev
 
     def invoke(self, func: FuncInfo, args: List[Any], kw: Dict[str, Any], parent: Optional[Evaluator]):
@@ -213,7 +215,7 @@ class Runtime:
         try:
             ev = self.evaluator(func.module)
             if parent is not None:
-                ev.sym_compare = parent.sym_compare
+                ev.sym_compare = parent.sym_compare or self.sym_compare
                 ev.attr_fallback = parent.attr_fallback
                 ev.while_bound = parent.while_bound
             func.node._csa_module = func.module
